@@ -39,71 +39,51 @@ Proof. vm_compute. auto. Qed.
    or what it was given is printed LATER, when an older section is written to and the newer ones are printed again
    (seeded change C10-g).
      allowed gs o        the gate of the section lets the call o through (write: the caller's flags; overwrite, clear: None)
-     gstep / grun        the step / run of the CODE: the Section.v step iff allowed, the identity otherwise - except that a
-                         refused clear / overwrite of a DECORATED section still cuts the recorded content (finding:
-                         SectionOutput.clear asks no gate before it changes _content / _lines)
-     leaks ansi gs o     o is such a call;  leakfree ansi gs ops: no call of ops is (a check that can be run)
+     gstep / grun        the step / run of the code: the Section.v step iff allowed, the identity otherwise (write returns
+                         before it pops or records anything; clear asks the gate before it cuts _content / _lines - since
+                         /repo a112510, the repair of the finding this model made: a refused clear used to cut the record)
      kept gs ops         ops without its refused calls;  erase gs ops: the Section.v operations of the allowed calls
    ====================================================================================================================== *)
 From Clikit Require Import Base.Res Base.Term Model.Markup Model.Section Model.GatedSection
   Proofs.MarkupLemmas Proofs.SectionLemmas Proofs.GatedSectionLemmas.
 
-(* (a) A refused call changes neither the stream nor any section's state (content, row count, indentation) nor the
-   settings nor the formatter: EVERY refused write / write_line (any flags, decorated or not), every refused call on an
-   undecorated output, and a refused clear / overwrite of a decorated section that has nothing recorded. *)
+(* (a) EVERY refused call - write, write_line (any flags), overwrite, clear, full or partial, decorated or not, whatever the
+   section has on record - changes neither the stream nor any section's state (content, row count, indentation) nor the
+   settings nor the formatter. *)
 Theorem refused_call_is_invisible : forall ansi w st gs f o, allowed gs o = false ->
-  is_clear o = false \/ ansi = false \/ nothing_recorded st o ->
   gstep ansi w st gs f o = Ok (st, gs, f, []).
 Proof. exact refused_invisible. Qed.
 Print Assumptions refused_call_is_invisible.
 
-(* the code does what C10 asks for (gstep_ideal: Section.v step iff allowed, else the identity) on every call but those *)
-Theorem code_is_ideal_unless_clear_refused : forall ansi w st gs f o, leaks ansi gs o = false ->
-  gstep ansi w st gs f o = gstep_ideal ansi w st gs f o.
-Proof. exact gstep_is_ideal. Qed.
-Print Assumptions code_is_ideal_unless_clear_refused.
-
-(* (b) For EVERY sequence of calls (from any state of sections, settings and formatter) in which no decorated clear /
-   overwrite is refused: the whole result - the emitted stream, every section's content and row count, the settings,
-   the formatter, also the exception if a call raises - is that of the sequence with all refused calls removed.  What a
-   refused call was given can never show up, neither at once nor later. *)
-Theorem refused_text_never_appears : forall ansi w st gs f ops, leakfree ansi gs ops = true ->
+(* (b) For EVERY sequence of calls, from any state of sections, settings and formatter: the whole result - the emitted
+   stream, every section's content and row count, the settings, the formatter, also the exception if a call raises - is
+   that of the sequence with all refused calls removed.  What a refused call was given can never show up, neither at once
+   nor later. *)
+Theorem refused_text_never_appears : forall ansi w st gs f ops,
   grun ansi w st gs f ops = grun ansi w st gs f (kept gs ops).
 Proof. exact refused_never_appears. Qed.
 Print Assumptions refused_text_never_appears.
 
 (* ... and it is the flag-less Section.v run (C15) of the operations of the allowed calls; the settings only depend on
    the calls made *)
-Theorem gated_run_is_section_run : forall ansi w ops st gs f, leakfree ansi gs ops = true ->
+Theorem gated_run_is_section_run : forall ansi w ops st gs f,
   grun ansi w st gs f ops = lift (gates_after gs ops) (srun ansi w st f (erase gs ops)).
 Proof. exact grun_erase. Qed.
 Print Assumptions gated_run_is_section_run.
 
-(* What C10 asks for (grun_ideal: EVERY refused call is the identity) has this property without any side condition, and
-   the run of the code is that run as long as no decorated clear / overwrite is refused. *)
-Theorem ideal_run_is_section_run : forall ansi w ops st gs f,
-  grun_ideal ansi w st gs f ops = lift (gates_after gs ops) (srun ansi w st f (erase gs ops)).
-Proof. exact grun_ideal_erase. Qed.
-Print Assumptions ideal_run_is_section_run.
-Theorem code_run_is_ideal_run : forall ansi w ops st gs f, leakfree ansi gs ops = true ->
-  grun ansi w st gs f ops = grun_ideal ansi w st gs f ops.
-Proof. exact grun_is_ideal. Qed.
-Print Assumptions code_run_is_ideal_run.
-
 (* two sequences that differ only in what their refused calls were given (texts, flags, line counts) have the same result *)
-Theorem refused_arguments_do_not_matter : forall ansi w st gs f ops ops',
-  leakfree ansi gs ops = true -> leakfree ansi gs ops' = true -> kept gs ops = kept gs ops' ->
+Theorem refused_arguments_do_not_matter : forall ansi w st gs f ops ops', kept gs ops = kept gs ops' ->
   grun ansi w st gs f ops = grun ansi w st gs f ops'.
 Proof. exact refused_arguments_irrelevant. Qed.
 Print Assumptions refused_arguments_do_not_matter.
 
 (* (c) The C15 screen theorem lifted.  For EVERY sequence of section creations, indentations, set_quiet / set_verbosity,
-   flagged writes, overwrites and clears on a decorated output in which no clear / overwrite is refused and in which the
-   texts of the ALLOWED writes are good markup (the refused ones may be anything), every width >= 1: no call raises, and
-   the terminal fed with the emitted bytes shows exactly the stacked visible contents of the sections - which are the
-   contents the allowed calls wrote (the Section.v run of erase) -, every row count is right, the style stack is empty. *)
+   flagged writes, overwrites and clears on a decorated output in which the texts of the ALLOWED writes are good markup
+   (the refused ones may be anything), every width >= 1: no call raises, and the terminal fed with the emitted bytes shows
+   exactly the stacked visible contents of the sections - which are the contents the allowed calls wrote (the Section.v
+   run of erase) -, every row count is right, the style stack is empty. *)
 Theorem gated_screen_is_stack : forall w, 1 <= w -> forall f0 ops, is_ansi f0 -> f_stack f0 = [] ->
-  leakfree true [] ops = true -> good_opsb (f_styles f0) (erase [] ops) = true ->
+  good_opsb (f_styles f0) (erase [] ops) = true ->
   exists st f es, grun true w [] [] f0 ops = Ok (st, gates_after [] ops, f, es) /\
     srun true w [] f0 (erase [] ops) = Ok (st, f, es) /\
     feed w term_init es = screen w (f_styles f0) st /\ Forall (sec_ok w (f_styles f0)) st /\ fmt_ok (f_styles f0) f.
@@ -131,7 +111,7 @@ Example c10g_refused_text_absent :
   | Ok (st, _, _, es), Ok (st', _, _, es') =>
       es = es' /\ st = st' /\ existsb (fun e => match e with Ch 77%N => true | _ => false end) es = false
       /\ rows (feed 10 term_init es) = [t_older; t_later; []] /\ map sc_content st = [[t_older; t_later]; []]
-      /\ leakfree true [] ops = true /\ kept [] ops = [GCreate; GCreate; GWrite 0 t_older None true; GWrite 0 t_later None true]
+      /\ kept [] ops = [GCreate; GCreate; GWrite 0 t_older None true; GWrite 0 t_later None true]
   | _, _ => False
   end.
 Proof. vm_compute. repeat split. Qed.
@@ -146,15 +126,19 @@ Example c10g_quiet_and_verbose :
    | Ok (st, _, _, es) => rows (feed 10 term_init es) = [t_older; t_later; t_mark; []] /\ map sc_content st = [[t_older; t_later]; [t_mark]]
    | Err _ => False end).
 Proof. vm_compute. repeat split. Qed.
-(* THE FINDING, as the model follows the code: clear() of a quiet decorated section emits nothing, yet its record is cut;
-   the later write into the older section then does not erase the row that is still on the screen: the screen shows
-   older / MARK / later, the contents are older, later / (nothing).  leakfree is false: outside (b) and (c). *)
-Example c10_refused_clear_leaves_a_trace :
+(* THE FINDING this model made, repaired in /repo a112510: clear() (and overwrite, clear(1)) of a quiet decorated section
+   emits nothing AND leaves the record alone.  The later write into the older section erases the row that is on the
+   screen and prints it again: the screen shows older / later / MARK, the contents are older, later / MARK - no trace of
+   the refused calls, the run is that of the sequence without them.  (Before the repair the record of section 1 was cut:
+   screen older / MARK / later against contents older, later / nothing.) *)
+Example c10_refused_clear_leaves_no_trace :
   let ops := [GCreate; GCreate; GWrite 0 t_older None true; GWrite 1 t_mark None true; GSetQuiet 1 true; GClear 1 None;
-              GSetQuiet 1 false; GWrite 0 t_later None true] in
+              GOverwrite 1 t_later; GClear 1 (Some 1); GSetQuiet 1 false; GWrite 0 t_later None true] in
   match grun true 10 [] [] g_f ops with
-  | Ok (st, _, _, es) => rows (feed 10 term_init es) = [t_older; t_mark; t_later; []] /\ map sc_content st = [[t_older; t_later]; []]
-                         /\ leakfree true [] ops = false
+  | Ok (st, _, _, es) => rows (feed 10 term_init es) = [t_older; t_later; t_mark; []] /\ map sc_content st = [[t_older; t_later]; [t_mark]]
+                         /\ map sc_lines st = [2; 1]
+                         /\ kept [] ops = [GCreate; GCreate; GWrite 0 t_older None true; GWrite 1 t_mark None true; GSetQuiet 1 true;
+                                          GSetQuiet 1 false; GWrite 0 t_later None true]
   | Err _ => False
   end.
 Proof. vm_compute. repeat split. Qed.
